@@ -299,7 +299,8 @@ func symSprintf(fr *frame, format string, args []value, wraps *[]iface) string {
 			} else if spec == "%f" {
 				sb.WriteString(fr.i.ex.atomString(x.t, f64, "f6"))
 			} else {
-				panic(unsupported("Sprintf %q of symbolic float", spec))
+				// other verbs (%d, %s, %5.2f ...): concretise the number (counted)
+				sb.WriteString(fmt.Sprintf(spec, fr.i.ex.concretizeF(x)))
 			}
 			continue
 		case symI:
@@ -310,7 +311,10 @@ func symSprintf(fr *frame, format string, args []value, wraps *[]iface) string {
 			}
 			continue
 		case symB:
-			panic(unsupported("Sprintf of symbolic bool"))
+			// fork on the value, then format natively
+			raw = fr.i.ex.decide(x.t, "Sprintf bool")
+			sb.WriteString(fmt.Sprintf(spec, raw))
+			continue
 		case symStr:
 			panic(unsupported("Sprintf of rune-vector string"))
 		}
@@ -320,7 +324,9 @@ func symSprintf(fr *frame, format string, args []value, wraps *[]iface) string {
 				sb.WriteString(s)
 				continue
 			}
-			panic(unsupported("Sprintf %q of string with atoms", spec))
+			// other verbs: concretise the numbers inside the string (counted)
+			sb.WriteString(fmt.Sprintf(spec, fr.i.ex.concretizeAtoms(s)))
+			continue
 		}
 		if s, ok := na.(strer); ok && hasAtom(s.s) || func() bool { e, ok := na.(errer); return ok && hasAtom(e.s) }() {
 			if spec == "%v" || spec == "%s" {
@@ -1071,4 +1077,30 @@ func sortSliceExt(fr *frame, a []value) value {
 		}
 	}
 	return nil
+}
+
+// concretizeAtoms replaces every float atom of s by the text of one concrete
+// model value (the value is fixed on the path; counted as concretised).
+func (e *explorer) concretizeAtoms(s string) string {
+	var sb strings.Builder
+	for _, p := range splitAtoms(s) {
+		if p.atom < 0 {
+			sb.WriteString(p.lit)
+			continue
+		}
+		a := e.atoms[p.atom]
+		if a.sort != f64 {
+			panic(unsupported("concretising a non-float atom"))
+		}
+		f := e.concretizeF(symF{a.term})
+		switch a.fmt {
+		case "f-1":
+			sb.WriteString(strconv.FormatFloat(f, 'f', -1, 64))
+		case "g-1":
+			sb.WriteString(strconv.FormatFloat(f, 'g', -1, 64))
+		default:
+			sb.WriteString(fmt.Sprint(f))
+		}
+	}
+	return sb.String()
 }
